@@ -404,7 +404,14 @@ fn c18(ctx: &Ctx, rep: &mut Report) {
         ("XDG_DATA_HOME", xh_vals("data")),
         ("XDG_STATE_HOME", xh_vals("state")),
         ("XDG_RUNTIME_DIR", xh_vals("run")),
-        ("XDG_CONFIG_DIRS", list_vals("c1", "c2")),
+        // (also lists that name the user's own config directory again, behind or in front of a system directory: the
+        // user directory still has to be searched first)
+        ("XDG_CONFIG_DIRS", {
+            let mut v = list_vals("c1", "c2");
+            v.push(Some(format!("{}:{}", d("c1"), d("ch"))));
+            v.push(Some(format!("{}:{}:{}", d("ch"), d("c1"), d("ch"))));
+            v
+        }),
         ("XDG_DATA_DIRS", list_vals("d1", "d2")),
         ("PATH", list_vals("p1", "p2")),
         ("SUDO_UID", sudo_vals.clone()),
